@@ -361,4 +361,10 @@ theorem parseInterval_body (e : Env) (neg : Bool) (body : Str) (y mo d h mi sec 
     | none => rfl
     | some t => simp [hf t rfl]
 
+/-- literals for the examples -/
+theorem duDigits_lit {t : Str} (h : t.all isAsciiDigit = true) (hne : t ≠ []) : duDigits (some t) := by
+  intro u hu; cases hu; exact ⟨hne, allDigits_of_all h⟩
+
+theorem duDigits_none : duDigits none := by intro u hu; cases hu
+
 end Proofs.DurationAccept
